@@ -492,3 +492,10 @@ def run(ck):
                   % (v_, d_.get("l"), (bad[0].get("callee") or "").rsplit("::", 2)[-1], bad[0].get("l"), v_, bad[1].get("l")))
     ck.ob("C03-R14", "pointers-into-the-buffer", True, "", "", "%d local pointer(s) into the receive buffer followed; %d function(s) hand one out" % (nptr, len(giver)), nontrivial=False)
 
+    # ---------------- facts shared with C14 ----------------
+    ck.borrow("C14", ["C14-R1"], "C03-R15",
+              "the size budget of a connection is a budget for the request: the limit test in ArrayStreamBuf::feed measures everything fed "
+              "for the current message (the buffer's size, or a fill counter that only reset() takes back) and nothing removes bytes from "
+              "the measured buffer between two feeds -- otherwise a request of any size is accepted piecewise and its body retained",
+              min_instances=2)
+
